@@ -18,6 +18,9 @@ FLAVOURS = {
  'added': "This round asks for ADDED or RESTRUCTURED code rather than one-token edits: a new fast path, a new helper, a cache, a rewritten loop, a 'simplification' -- the kind of change a maintainer would actually submit -- that is wrong for a class of inputs.",
  'boundary': "This round asks for changes whose fault shows only at BOUNDARIES or in INTERACTIONS: parameters exactly 0 or 1, empty or single-segment paths, closed paths, zero-length or degenerate segments, repeated or coincident points, negative or out-of-range indices, keyword versus positional arguments, rarely combined options, ints versus floats versus numpy scalars, or two public calls in sequence where the second sees state left by the first. The change itself may be a small edit or added code, but ordinary interior inputs must behave exactly as before.",
 }
+FLAVOURS['untouched'] = ("This round asks for changes in code that no earlier tester has touched. Prefer to place each change in one of the following functions/methods "
+    "WHEN it is relevant to the property (directly, or because the property's functions call it): " + os.environ.get('UNTOUCHED', '') +
+    ". If none of these is relevant, pick any function that is not in the 'already delivered' list below. Small edits and added code are both fine.")
 flavour = FLAVOURS[os.environ.get('FLAVOUR', 'subtle')]
 print(f"""You are helping test a verification effort for the Python library svgpathtools (pure-Python SVG path geometry).
 A scratch git worktree of the library is at {wt} (package directory {wt}/svgpathtools, tests in {wt}/test).
